@@ -10,6 +10,11 @@ def region(name, body):
     b = s.index("<!-- END:%s -->" % name)
     s = s[:a] + "\n" + body.strip("\n") + "\n" + s[b:]
 region("findings", subprocess.run(["python3", os.path.join(R, "tools", "findings_table.py")], capture_output=True, text=True).stdout)
+def gitlog(pat):
+    out = subprocess.run(["git", "-C", "/repo", "log", "--reverse", "--format=%h %s", "--grep=" + pat], capture_output=True, text=True).stdout.strip()
+    return [l for l in out.split("\n") if l]
+region("hooks", "\n".join("   - `%s`" % l for l in gitlog("^verif hook")))
+region("repairs", "\n".join(" * `%s`" % l for l in gitlog("^fix:")))
 m = os.path.join(R, "seeded", "MATRIX.md")
 if os.path.exists(m):
     rows = [l for l in open(m).read().split("\n") if l.startswith("| C")]
